@@ -1,0 +1,19 @@
+//go:build verif
+
+package decoder
+
+// VerifVersions exposes the decoder's symbol size table to the verification harness (only with build tag verif).
+// Each entry: version number, symbol rows, symbol columns, data region rows, data region columns,
+// total codewords, error codewords per block, then (count, data codewords) for every block group.
+func VerifVersions() [][]int {
+	out := make([][]int, 0, len(versions))
+	for _, v := range versions {
+		e := []int{v.versionNumber, v.symbolSizeRows, v.symbolSizeColumns, v.dataRegionSizeRows,
+			v.dataRegionSizeColumns, v.totalCodewords, v.ecBlocks.ecCodewords}
+		for _, b := range v.ecBlocks.ecBlocks {
+			e = append(e, b.count, b.dataCodewords)
+		}
+		out = append(out, e)
+	}
+	return out
+}
